@@ -428,3 +428,38 @@ def returned_truths(fn_node, decide):
         else:
             out.add(False)
     return out
+
+
+def path_expand(stmts, upto, expr, atoms, depth=6):
+    """Like path_value, and additionally every local name *inside* the resulting expression is replaced by the
+    expression last assigned to it on this execution (bounded): `return K(inner)` after `inner = f(x.type)` denotes
+    `K(f(x.type))` even when `inner` is assigned on several branches."""
+    import copy
+    defs = {}
+    for st in stmts:
+        if st is upto:
+            break
+        if isinstance(st, ast.Assign) and len(st.targets) == 1 and isinstance(st.targets[0], ast.Name):
+            defs[st.targets[0].id] = st.value
+        elif isinstance(st, ast.AnnAssign) and isinstance(st.target, ast.Name) and st.value is not None:
+            defs[st.target.id] = st.value
+
+    def rec(e, d):
+        e = path_value(stmts, upto, e, atoms)
+
+        class T(ast.NodeTransformer):
+            def visit_Name(self, node):
+                if isinstance(node.ctx, ast.Load) and node.id in defs and d > 0:
+                    return rec(defs[node.id], d - 1)
+                return node
+
+            def visit_Lambda(self, node):
+                return node
+
+            def visit_IfExp(self, node):
+                try:
+                    return self.visit(copy.deepcopy(node.body if evaluate(node.test, atoms) else node.orelse))
+                except KeyError:
+                    return self.generic_visit(node)
+        return T().visit(copy.deepcopy(e))
+    return ast.fix_missing_locations(rec(expr, depth))
